@@ -506,6 +506,145 @@ def _k3_obligations(tier: str) -> List[Ob]:
     return obs
 
 
+# --------------------------------------------------------------------------- K3: hierarchies of suites
+
+STUB_UNTRACED = ('K3:hier: CrossHair tracing is suspended (crosshair.tracers.NoTracing) once every selector has been made '
+                 'concrete: the real main program runs on the concrete files natively')
+REAL_K3H = REAL_K3 + (
+    'exactly_lib.test_suite.processing.Processor.report',
+    'exactly_lib.test_suite.processing.SuitesExecutor.execute_and_report',
+    'exactly_lib.test_suite.enumeration.DepthFirstEnumerator',
+    'exactly_lib.test_suite.file_reading.suite_hierarchy_reading._SingleFileReader.__call__',
+    'exactly_lib.test_suite.structure.TestSuiteHierarchy',
+)
+_H_SUITES = ('r', 'a', 'b')
+
+
+def _pre_k3h(rm: int, am: int, bm: int, rp: int, ap: int, bp: int, sa: bool, nr: int, na: int, nb: int, cm: int,
+             order: int) -> bool:
+    c = ob.case()
+    n_suites = len(L.hier_suite_tags(c['shape']))
+    vals = dict(r=(rm, rp, nr), a=(am, ap, na), b=(bm, bp, nb))
+    for i, t in enumerate(_H_SUITES):
+        m, p, n = vals[t]
+        if i >= n_suites:
+            if m != 0 or p != 0 or n != 0:
+                return False
+            continue
+        if not (_in(m, c['masks'][t]) and _in(p, c['pps'][t]) and _in(n, c['n'][t])):
+            return False
+    if c['sa'] != 'free' and sa != c['sa']:
+        return False
+    return _in(cm, c['cm']) and _in(order, c['order'])
+
+
+def k3_hierarchy(rm: int, am: int, bm: int, rp: int, ap: int, bp: int, sa: bool, nr: int, na: int, nb: int, cm: int,
+                 order: int) -> bool:
+    """
+    pre: _pre_k3h(rm, am, bm, rp, ap, bp, sa, nr, na, nb, cm, order)
+    post: _
+    """
+    c = ob.case()
+    tags = L.hier_suite_tags(c['shape'])
+    shared_actor = ob.concrete_bool(sa)
+    vals = dict(r=(rm, rp, nr), a=(am, ap, na), b=(bm, bp, nb))
+    suites, n_cases = {}, {}
+    for t in tags:
+        m, p, n = vals[t]
+        suites[t] = L.hier_contents(t, ob.concrete_int(m, 0, 63), ob.concrete_int(p, 0, 2), shared_actor)
+        n_cases[t] = ob.concrete_int(n, 0, 2)
+    cmask, order_c = ob.concrete_int(cm, 0, 63), ob.concrete_int(order, 0, 3)
+    with ob.untraced():  # every selector is concrete by now
+        obs = L.hier_observe(c['shape'], suites, n_cases, cmask, order_c, bool(c.get('exactly_names')),
+                             bool(c.get('oracle_bug')))
+        ok = L.k3_ok(obs)
+    return ob.post(ok)
+
+
+_SHAPE_TEXT = {
+    'one-sub': 'h/r.suite lists the sub-suite a/a.suite',
+    'siblings': 'h/r.suite lists the sub-suites a/a.suite and b/b.suite',
+    'chain': 'h/r.suite lists the sub-suite a/a.suite which lists the sub-suite b/b.suite',
+}
+
+
+def _k3h_ob(name, shape, timeout, masks, pps=(0,), n=(1,), sa=False, cm=(42,), order=(0,), **case):
+    tags = L.hier_suite_tags(shape)
+
+    def per_suite(x):
+        if isinstance(x, dict):
+            return {t: tuple(x[t]) for t in tags}
+        return {t: tuple(x) for t in tags}
+
+    c = dict(shape=shape, masks=per_suite(masks), pps=per_suite(pps), n=per_suite(n), sa=sa, cm=tuple(cm), order=tuple(order))
+    c.update(case)
+    if case.get('oracle_bug'):
+        bound = 'seeded oracle error: the cases of a sub-suite are expected to get the contents of the root suite'
+    else:
+        bound = ('hierarchy of %d suite files: %s; every suite <t> lists its own cases <t>1.case .. beside it; run as `suite '
+                 'h/r.suite`; every case must be observed (identifier, processes started, preprocessor) with the contents '
+                 'of the suite that lists it and of no other suite - exactly as when run alone with `--suite ITS-SUITE`%s; '
+                 % (len(tags), _SHAPE_TEXT[shape], ' and alone beside it (the suites are named exactly.suite and listed by '
+                                                   'directory)' if case.get('exactly_names') else ''))
+        bound += '; '.join('suite %s: contents %s, %s, %s cases' % (
+            t, _masks_text(c['masks'][t]), ' / '.join(L.PP_KINDS[p] for p in c['pps'][t]),
+            ' / '.join(str(k) for k in c['n'][t])) for t in tags)
+        bound += ('; the actor of the suites with [conf] contents: %s; the first case of a suite holds %s, the second one the '
+                  'complement; %s; %s' % (
+                      {'free': 'the same interpreter / one per suite', True: 'the same interpreter', False: 'one per suite'}[sa],
+                      _masks_text(c['cm']),
+                      'listing: ' + ' / '.join(('[cases] before [suites]' if o & 1 else '[suites] before [cases]')
+                                               + (', lists reversed' if o & 2 else '') for o in c['order']),
+                      _MASK_TEXT))
+    return Ob(name='K3:hier:' + name, fn='k3_hierarchy', case=c, kernel='K3', timeout=timeout, selector=True, bound=bound,
+              real=REAL_K3H, stubs=(STUB_SUBPROCESS, STUB_CLI_ENV, STUB_UNTRACED), outside=OUTSIDE_K3 + (
+                  'hierarchies deeper than root - sub-suite - sub-sub-suite, more than two sub-suites, more than two cases per suite',
+                  'the order in which the cases of different suites are processed'),
+              entry="MainProgram.execute(['suite', ROOT-SUITE]) vs MainProgram.execute(['--suite', SUITE-OF-THE-CASE, CASE]) per case")
+
+
+def _k3h_obligations(tier: str) -> List[Ob]:
+    obs = []
+    singles = (0, 1, 2, 4, 8, 16, 32, 63)
+    few = (0, 18, 63)
+    if tier == 'quick':
+        obs.append(_k3h_ob('one-sub:phases', 'one-sub', 600, masks=singles, sa='free', cm=(0, 21, 42, 63)))
+        obs.append(_k3h_ob('one-sub:cases+listing', 'one-sub', 600, masks=few, n=(0, 1, 2), order=(0, 1, 2, 3)))
+        obs.append(_k3h_ob('one-sub:actor+preprocessor', 'one-sub', 600, masks=(0, 1, 63), pps=(0, 1, 2), sa='free'))
+        obs.append(_k3h_ob('one-sub:exactly.suite', 'one-sub', 300, masks=(0, 63), pps=(0, 2), order=(0, 1),
+                           exactly_names=True))
+        for shape in ('siblings', 'chain'):
+            obs.append(_k3h_ob(shape + ':contents+listing', shape, 600, masks=few, order=(0, 1, 2, 3)))
+            obs.append(_k3h_ob(shape + ':actor+preprocessor', shape, 600, masks=dict(r=(63,), a=(1, 18), b=(37,)),
+                               pps=(0, 1, 2), sa='free'))
+        obs.append(_k3h_ob('siblings:cases', 'siblings', 600, masks=dict(r=(0, 63), a=(18,), b=(0, 63)), n=(0, 1, 2)))
+    else:
+        for lo in range(0, 64, 8):
+            obs.append(_k3h_ob('one-sub:contents:r%d-%d' % (lo, lo + 7), 'one-sub', 3000,
+                               masks=dict(r=tuple(range(lo, lo + 8)), a=tuple(range(64))), sa='free', cm=(0, 21, 42, 63)))
+        for o in (0, 1, 2, 3):
+            obs.append(_k3h_ob('one-sub:cases+listing:%d' % o, 'one-sub', 3000, masks=(0, 5, 18, 40, 63), pps=(0, 2),
+                               n=(0, 1, 2), order=(o,)))
+        obs.append(_k3h_ob('one-sub:actor+preprocessor', 'one-sub', 3000, masks=(0, 1, 21, 42, 63), pps=(0, 1, 2), sa='free',
+                           cm=(0, 42)))
+        for en_order in (0, 1, 2, 3):
+            obs.append(_k3h_ob('one-sub:exactly.suite:%d' % en_order, 'one-sub', 3000, masks=(0, 21, 42, 63), pps=(0, 1, 2),
+                               n=(1, 2), order=(en_order,), exactly_names=True))
+        for shape in ('siblings', 'chain'):
+            for o in (0, 1, 2, 3):
+                obs.append(_k3h_ob('%s:contents+listing:%d' % (shape, o), shape, 3000, masks=(0, 1, 18, 36, 63), order=(o,),
+                                   sa='free', cm=(21, 42)))
+            obs.append(_k3h_ob(shape + ':actor+preprocessor', shape, 3000, masks=dict(r=(0, 63), a=(1, 18), b=(0, 37)),
+                               pps=(0, 1, 2), sa='free', order=(0, 3)))
+            obs.append(_k3h_ob(shape + ':cases', shape, 3000, masks=dict(r=(0, 63), a=(18,), b=(0, 63)), pps=(0, 2),
+                               n=(0, 1, 2)))
+            obs.append(_k3h_ob(shape + ':exactly.suite', shape, 3000, masks=(0, 63), pps=(0, 2), order=(0, 3),
+                               exactly_names=True))
+    obs.append(_k3h_ob('seeded-oracle-error', 'one-sub', 300, masks=dict(r=(2, 63), a=(0, 16)), oracle_bug=True))
+    obs[-1].expect = ob.REFUTE
+    return obs
+
+
 # --------------------------------------------------------------------------- K4
 
 REAL_K4 = (
@@ -718,8 +857,8 @@ def _k5_obligations(tier: str) -> List[Ob]:
 
 
 def obligations(tier: str) -> List[Ob]:
-    return (_k1_obligations(tier) + _k2_obligations(tier) + _k3_obligations(tier) + _k4_obligations(tier)
-            + _k5_obligations(tier))
+    return (_k1_obligations(tier) + _k2_obligations(tier) + _k3_obligations(tier) + _k3h_obligations(tier)
+            + _k4_obligations(tier) + _k5_obligations(tier))
 
 
 # --------------------------------------------------------------------------- self-test (stubs and reference oracles)
